@@ -144,8 +144,14 @@ def run_cases(ctx, rule_id, cases):
             elif p.outcome != "return":
                 ok, why_not = False, f"raises {p.value.cls}"
             elif want is UNCHANGED:
-                ok = p.value is inp
-                why_not = f"rewrites it to `{tagof(p.value)}`"
+                # the same node, and nothing below it rewritten in place (set / replace / append on a node of the input)
+                touched = [e for e in p.effects if e[0] in ("nodeset", "nodereplace")]
+                ok = p.value is inp and not touched
+                if p.value is not inp or not touched:
+                    why_not = f"rewrites it to `{tagof(p.value)}`"
+                else:
+                    t0 = touched[0]
+                    why_not = f"rewrites it in place ({t0[0]} `{tagof(t0[1])}`" + (f".{t0[2]} := {tagof(t0[3])}" if t0[0] == "nodeset" else "") + ")"
             else:
                 r = match(p.value, want)
                 ok, why_not = r is None, r
